@@ -858,6 +858,21 @@ struct Outcome {
 }
 
 fn classify_model(v0: Viol, op: &Op) -> Viol {
+    // links that are inconsistent right after a structural operation: that operation did not have its documented effect
+    if v0.props.contains(&"C01") && !v0.props.contains(&"MODEL") {
+        let extra: Option<&'static str> = match op {
+            Op::Remove(_) | Op::RemoveSubtree(_) => Some("C04"),
+            Op::Checked(..) | Op::Unchecked(..) | Op::Detach(_) | Op::AppendValue(_) => Some("C03"),
+            _ => None,
+        };
+        let mut v1 = v0;
+        if let Some(e) = extra {
+            if !v1.props.contains(&e) {
+                v1.props.push(e);
+            }
+        }
+        return Viol { props: v1.props, msg: format!("after {}: {}", op_str(op), v1.msg) };
+    }
     // a structural mismatch with the model is attributed to the operation that caused it
     if v0.props == vec!["MODEL"] {
         let mut p: Vec<&'static str> = match op {
